@@ -6,9 +6,13 @@ props = [json.loads(l) for l in open(os.path.join(V, "properties.jsonl"))]
 
 CLAIMED = {
  "C08": dict(
-   text="Gallina model of the milu type checker and evaluator exactly as the crate implements them (lazy arrays/tuples, let bindings as environment-carrying thunks, one-level forcing, Any wildcard, every builtin body with checked i64 arithmetic) in the redproxy script environment. Proved so far: totality and typing of the integer and comparison builtin bodies, accessor type tables agree with the values delivered, and REFUTATION theorems with concrete witnesses for the two recorded soundness holes; the soundness induction for the let-free fragment is proved in MiluSound.v when that file is present (see evidence.coverage.property_theorems). Tie: extracted parser+checker+evaluator vs the real milu crate on typed-generated, depth-2 exhaustive and random programs under 5 requests, with the property itself as oracle (accepted => value of that type or a dynamic error).",
-   note="Partial: the unbounded soundness theorem covers the let-free fragment only (programs with `let` are covered by the differential check and two recorded known-finding classes); regex crate and IP/CIDR text parsing are Section-variable oracles; template strings are outside the model; termination is by fuel (out-of-fuel is excluded by the statements).",
-   tech="Rocq proof over an executable checker/evaluator model + differential correspondence with a property oracle"),
+   text="Gallina model of the milu type checker and evaluator exactly as the crate implements them (lazy arrays/tuples, let bindings as environment-carrying thunks, one-level forcing, Any wildcard, every builtin body with checked i64 arithmetic) in the redproxy script environment. Proved: TYPE SOUNDNESS for the whole let-free fragment (every expression the parser builds without `let` and `[]`, every request, every oracle behaviour, every fuel: accepted with T => value of type T or an inherently dynamic error, never a panic, never a type error), at value_of level and at the real_type_of/real_value_of entry points; checker totality and Any-freeness; totality/typing of integer and comparison builtins; accessor tables agree; REFUTATION theorems with concrete witnesses for the two recorded soundness holes. The hypothesis wf_lf is tied to the parser by an executable test (proved sound) evaluated on every parsed program. Tie: extracted parser+checker+evaluator vs the real milu crate on typed-generated, depth-2 exhaustive and random programs under 5 requests with the property itself as oracle.",
+   note="Partial: programs with `let` are not covered by the soundness theorem (differential check + two known-finding classes cover them); parse => wf_lf is checked at run time, not proved; regex crate and IP/CIDR text parsing are Section-variable oracles; template strings are outside the model; termination is by fuel.",
+   tech="Rocq proof (soundness by induction on evaluation fuel over an executable checker/evaluator model) + differential correspondence with a property oracle"),
+ "C02": dict(
+   text="Rocq theorems over Dispatch.v (process_request, set_rules, Rule::evaluate on top of the milu evaluator model): first-match-wins as an iff characterisation over all rule lists, default deny, filterless rules match, failing filters do not match, an upstream is contacted only for the first matching rule with the requested feature, nothing is forwarded / recorded / connected on deny, payload is forwarded only after establishment, and CIDR containment is range membership for every width and prefix length. Tie: the real process_request/set_rules with recording connectors vs the extracted model on random rule lists x requests x feature sets; independent oracle recomputes the decision from each filter's own evaluation; cidr_match vs Python ipaddress on every IPv4 prefix length and sampled IPv6 ones.",
+   note="Trusted: Coq kernel, extraction, glue; IP/CIDR text parsing (std, cidr crate - lenient about text forms) and regex are oracles; the relay after establishment is C01's subject (here only that the payload reaches the selected upstream in buffered mode).",
+   tech="Rocq proof over an effect-trace model + differential correspondence with an independent decision oracle"),
  "C09": dict(
    text="The parser model (a PEG interpreter mirroring the nom combinators) is instantiated with the operator ladder REGENERATED from milu/src/parser.rs on every run and checked inside Rocq against the documented table regenerated from milu/readme.md: every documented operator and spelling, every ordered pair (precedence, associativity), every ordered triple over the precedence levels, unary/postfix/conditional/scope interactions, tag-shadowing discipline of ordered choice, and blank/comment fillers at every token boundary of sample forms - each a complete enumeration evaluated by vm_compute. Tie: the extracted parser model vs milu::parser::parse on exhaustive pairs/triples, random trees to depth 5 in four spellings, and a lexical edge list, with an independently written expected-tree oracle.",
    note="Partial: the unbounded statement parse(print e) = e for all trees and all fillers is not proved (the finite families above are); template strings are outside the model; nom is modelled. Trusted: Coq kernel, vm_compute, translator, extraction, glue.",
